@@ -307,7 +307,8 @@ orc_executor_emulate (OrcExecutor *ex)
        * from the middle of another element */
       const int lane_scale = (k == 1 && opcode->src_size[2] == 0 &&
           (opcode->flags & ORC_STATIC_OPCODE_LOAD) &&
-          (opcode->flags & ORC_STATIC_OPCODE_SCALAR)) ? opcode_ex[j].shift : 0;
+          (opcode->flags & ORC_STATIC_OPCODE_SCALAR) &&
+          strncmp (opcode->name, "loadoff", 7) == 0) ? opcode_ex[j].shift : 0;
 
       if (var->vartype == ORC_VAR_TYPE_CONST) {
         opcode_ex[j].src_ptrs[k] = tmpspace[insn->src_args[k]];
